@@ -2,8 +2,9 @@
 (***************************************************************************)
 (* GEN mode for C17.  Two emitters (CONSTRAINT Emit prints one JSON case   *)
 (* per state, Next is FALSE):                                              *)
-(*   What = "parse": every raw token vector of length <= MaxLen with the   *)
-(*          result of the transcription ArgsParse  (replayed on the real   *)
+(*   What = "parse": every raw token vector of CLILaws (full alphabet up   *)
+(*          to MaxLenFull, reduced alphabet up to MaxLen) with the         *)
+(*          result of the transcription ArgsParse (replayed on the real    *)
 (*          _args_parse of args.jq)                                        *)
 (*   What = "e2e":   tagged command lines by family with the predicted     *)
 (*          parsed options, exit code and stdout (replayed on real Main)   *)
@@ -36,14 +37,14 @@ DispToks(D) == (IF "raw_string" \in D THEN <<FlagS(<<"raw_string">>)>> ELSE <<>>
             \o (IF "join_output" \in D THEN <<FlagS(<<"join_output">>)>> ELSE <<>>)
             \o (IF "compact" \in D THEN <<FlagS(<<"compact">>)>> ELSE <<>>)
             \o (IF "null_output" \in D THEN <<FlagL("null_output", "raw-output0")>> ELSE <<>>)
-FormatInputs == {<<"B">>, <<"C">>, <<"O">>, <<"B", "C">>, <<"O", "M", "B">>, <<"T", "A">>}
+FormatInputs == {<<"B">>, <<"C">>, <<"O">>, <<"B", "C">>, <<"O", "M", "B">>, <<"T", "A">>, <<"E", "B">>}
 FormatCases ==
     {Case("format", "", DispToks(D) \o <<P(Progs[p])>> \o Files(ks), Idx(Len(DispToks(D)) + 1, Len(ks)), "A")
         : D \in DispSets, p \in {"id", "wrap", "dup"}, ks \in FormatInputs}
     \cup {Case("format", "", mf \o DispToks(D) \o <<P(".")>> \o Files(ks), Idx(Len(mf) + Len(DispToks(D)) + 1, Len(ks)), "A")
         : D \in {{}, {"compact"}, {"raw_string"}, {"join_output"}},
           mf \in {<<FlagS(<<"slurp">>)>>, <<FlagS(<<"string_input">>)>>, <<FlagS(<<"string_input", "slurp">>)>>},
-          ks \in {<<"B", "C">>, <<"O", "U", "A">>, <<"T", "A">>, <<"A", "T">>, <<"M">>}}
+          ks \in {<<"B", "C">>, <<"O", "U", "A">>, <<"T", "A">>, <<"A", "T">>, <<"M">>, <<"E">>, <<"E", "M", "E">>, <<"E", "A">>}}
     \cup {Case("format", "", ot \o <<P(".")>> \o Files(<<"C", "O">>), Idx(Len(ot) + 1, 2), "A")
         : ot \in {<<FlagS(<<"option">>), Val(<<"compact", "=", "true">>)>>,
                   <<FlagSI(<<"option">>, <<"compact", "=", "true">>)>>,
@@ -145,7 +146,7 @@ DashCases == {
 E2ECases == LoopCases \cup FormatCases \cup BindCases \cup FFileCases \cup ErrCases \cup LawCases \cup DashCases
 
 \* ---- emitters -----------------------------------------------------------------------
-ParseVecs == Seqs(RawTokens, MaxLen)
+ParseVecs == Seqs(RawTokensReduced, MaxLen) \cup Seqs(RawTokensFull \cup RawTokensReduced, MaxLenFull)
 GInit == g \in (IF What = "parse" THEN ParseVecs ELSE E2ECases) /\ vec = <<>>
 GNext == FALSE /\ g' = g /\ vec' = vec
 GSpec == GInit /\ [][GNext]_<<g, vec>>
